@@ -14,7 +14,7 @@ def drive_model(ctx, rng, steps=14, max_assets=5):
     step_names = sorted({s['name'] for a in L['assets'] for s in a['steps']})[:3] + ['zz']
     for _ in range(steps):
         op = rng.choice(['add', 'add', 'add', 'rm', 'assoc', 'assoc', 'assoc', 'rmassoc', 'rmfrom', 'atk', 'rmatk',
-                         'ep', 'rmep', 'def'])
+                         'ep', 'rmep', 'def', 'readd', 'readd_assoc', 'readd_atk'])
         try:
             if op == 'add' and len(m.assets) < max_assets:
                 T = rng.choice(types)
@@ -31,6 +31,33 @@ def drive_model(ctx, rng, steps=14, max_assets=5):
                     assets.append(o)
                 except Exception:
                     dead_assets.append(o)
+            elif op == 'readd' and dead_assets and len(m.assets) < max_assets:
+                o = rng.choice(dead_assets)             # an object we got back (removed or rejected) is handed in again
+                kw = {}
+                i = rng.choice(ids)
+                if i is not None:
+                    kw['asset_id'] = i
+                if rng.random() < 0.3:
+                    kw['allow_duplicate_names'] = False
+                try:
+                    m.add_asset(o, **kw)
+                    dead_assets.remove(o)
+                    assets.append(o)
+                except Exception:
+                    pass
+            elif op == 'readd_assoc' and dead_assocs:
+                a = rng.choice(dead_assocs)
+                try:
+                    m.add_association(a)
+                    dead_assocs.remove(a)
+                    assocs.append(a)
+                except Exception:
+                    pass
+            elif op == 'readd_atk' and dead_atks and len(atks) < 2:
+                t = rng.choice(dead_atks)
+                m.add_attacker(t)
+                dead_atks.remove(t)
+                atks.append(t)
             elif op == 'rm' and (assets or dead_assets):
                 pool = assets if (assets and rng.random() < 0.8) else (dead_assets or assets)
                 o = rng.choice(pool)
@@ -81,6 +108,7 @@ def drive_model(ctx, rng, steps=14, max_assets=5):
                 try:
                     m.remove_attacker(t)
                     atks.remove(t)
+                    dead_atks.append(t)
                 except Exception:
                     pass
             elif op == 'ep' and atks and assets:
